@@ -1,5 +1,5 @@
 """C01 — kernel clauses of the language semantics (interpreter primitives and evaluation order)"""
-from pyvc.api import Int, Bool, Str, Seq, Struct, Loop, Opt, List, Set, Obj, Const, Dict
+from pyvc.api import Int, Bool, Str, Seq, Struct, Loop, Opt, List, Set, Obj, Const, Dict, TupleS
 from contracts import REG
 
 IP = 'mesonbuild/interpreter/primitives/integer.py'
@@ -29,6 +29,16 @@ REG.contract('C01', AP, 'ArrayHolder.op_index', params={'self': ArrH, 'other': I
              ensures=['result == (self.held_object[other] if other >= 0 else self.held_object[len(self.held_object) + other])'],
              raises={'InvalidArguments': 'other < -len(self.held_object) or other >= len(self.held_object)'}, dropped=DROP, floor=3,
              note='negative indices count from the end; out of range is an error, never a wrap-around')
+_INR = '(-len(self.held_object) <= args[0] and args[0] < len(self.held_object))'
+REG.contract('C01', AP, 'ArrayHolder.get_method', params={'self': ArrH, 'args': TupleS(Int, Opt(Obj)), 'kwargs': Obj},
+             ensures=[f'implies({_INR}, result is (self.held_object[args[0]] if args[0] >= 0 else self.held_object[len(self.held_object) + args[0]]))',
+                      f'implies(not {_INR}, result is args[1])'],
+             raises={'InvalidArguments': f'not {_INR} and args[1] is None'},
+             dropped=['decorators noArgsFlattening / noKwargs / typed_pos_args / InterpreterObject.method: the argument shapes are checked before the call (precondition: the shape of args)'], floor=3,
+             note='array.get(i[, fallback]): every index from -length to length - 1 is in range (negative ones count from the end); out of range the fallback is the value when one is given, and an error otherwise')
+REG.contract('C01', AP, 'ArrayHolder.length_method', params={'self': ArrH, 'args': Obj, 'kwargs': Obj},
+             ensures=['result == len(self.held_object)'], dropped=['decorators noKwargs / noPosargs / InterpreterObject.method'], floor=1,
+             note='array.length(): the number of elements')
 
 # ---- short-circuit evaluation: the right operand is evaluated iff the left one does not decide
 NodeS = Struct('AndNode', 'mesonbuild.mparser:AndNode', left=Obj, right=Obj)
